@@ -205,6 +205,18 @@ def stepS (S : Schema) (line : String) : String :=
           body := (moveLegal S ts ts m.body f.2.1).1.map (·.2)
           trailer := (moveLegal S S.trailer S.trailer m.trailer f.2.2).1.map (·.2) }
       s!"clone={Drivers.hex (encodeMsg S ts (clone S ts m))} copy={Drivers.hex (encodeMsg S ts cp)} orig={Drivers.hex (encodeMsg S ts m)} moved={Drivers.hex (encodeMsg S ts mv)}"
+  | "xcopy" :: tt :: w =>
+    -- copy_legal of the body into a fresh message of another type (header and trailer of the target stay as created)
+    match Drivers.unhex tt with
+    | none => "bad-op"
+    | some tmt =>
+      withSpec S w fun _ ts m =>
+        match findMsg S tmt with
+        | none => "throw:InvalidMessage"
+        | some (_, tts) =>
+          let f := freshMsg S tmt
+          let t : Msg := { msgType := tmt, header := f.1.map (·.2), body := (copyLegal S ts tts m.body f.2.1).map (·.2), trailer := f.2.2.map (·.2) }
+          s!"xcopy={Drivers.hex (encodeMsg S tts t)}"
   | ["dclone", mode, h] =>
     match Drivers.unhex h with
     | none => "bad-op"
